@@ -8,7 +8,7 @@ Oracle (written from the statement): the completion of t contains every explicit
 default row of a rule iff t has, at that place, no row of the rule's kind (= matching the rule's pattern; the pattern
 language -- literal words, `*` one word, `~` one or more words, `*/re/` one word matching re, any other token is a
 regex fragment for one whole word, further words may follow -- is implemented HERE, the compiled regexps of annet are
-not used); nothing else is added; completing twice adds nothing. A default row that is in neither t nor u (and in both
+not used, and the default table is read from the text of _implicit_tree by an own reader); nothing else is added; completing twice adds nothing. A default row that is in neither t nor u (and in both
 completions) gives no diff entry and no command; dropping those rows from both completions leaves the patch unchanged;
 t == u gives an empty patch."""
 import itertools
@@ -100,9 +100,44 @@ class Rule:
         self.children = children
 
 
-def rules_of(compiled):
-    """the shipped rule DATA (row text, type, nesting) out of compile_rules; its regexps are not used"""
-    return [Rule(row, r["type"], rules_of(r["children"])) for row, r in compiled.items()]
+def default_text(dev):
+    """the raw default table of annet.implicit._implicit_tree(device): its call of the rule-text parser is intercepted so that
+    neither annet's parser nor compile_tree stands between the shipped text and the oracle"""
+    from annet import implicit
+    saved = implicit.parse_text
+    implicit.parse_text = lambda text: text
+    try:
+        out = implicit._implicit_tree(dev)
+    finally:
+        implicit.parse_text = saved
+    if not isinstance(out, str):
+        raise RuntimeError("_implicit_tree no longer hands its text to parse_text")
+    return out
+
+
+def read_rules(text):
+    """own reader of the default table: one rule per line, nesting by indentation, `#` lines are comments, a leading `!`
+    makes the row match-only (it is never added, its children apply under the lines it matches)"""
+    root = []
+    stack = [(-1, root)]
+    for raw in text.split("\n"):
+        st = raw.strip()
+        if not st or st.startswith("#"):
+            continue
+        ind = len(raw) - len(raw.lstrip(" \t"))
+        row = " ".join(st.split())
+        typ = "normal"
+        if row.startswith("!"):
+            typ = "ignore"
+            row = row[1:].strip()
+            if not row:
+                continue
+        while stack[-1][0] >= ind:
+            stack.pop()
+        r = Rule(row, typ, [])
+        stack[-1][1].append(r)
+        stack.append((ind, r.children))
+    return root
 
 
 def expected_completion(t, rules):
@@ -281,10 +316,11 @@ def context(hwi):
         from annet.annlib.netdev.views.hardware import HardwareView
         name, tags = HARDWARE[hwi]
         hw = HardwareView(name, None)
-        compiled = implicit.compile_rules(_Dev(hw, tags))
+        compiled = implicit.compile_rules(_Dev(hw, tags))       # only ever handed back to annet (implicit.config)
         rb = rulebook.get_rulebook(hw)
         fm = registry_connector.get().match(hw).make_formatter(indent="")
-        _ctx[hwi] = dict(hw=hw, compiled=compiled, rules=rules_of(compiled), rb=rb, fm=fm, neg=neg_word(name))
+        _ctx[hwi] = dict(hw=hw, tags=tags, compiled=compiled, rules=read_rules(default_text(_Dev(hw, tags))), rb=rb, fm=fm,
+                         join=registry_connector.get().match(hw).make_formatter().join, neg=neg_word(name))
     return _ctx[hwi]
 
 
@@ -420,6 +456,130 @@ def check_pair(hwi, t, u):
     return out
 
 
+# ---------------------------------------------------------------- the composition of annet.gen itself
+class _Storage:
+    def flush_perf(self):
+        return {}
+
+
+class _GenDev:
+    """the attributes _old_new_per_device / run_partial_generators / implicit / _diff_and_patch read"""
+    def __init__(self, hw, tags):
+        self.hw = hw
+        self.tags = list(tags)
+        self.hostname = "stub1"
+        self.fqdn = "stub1.example.net"
+        self.id = 1
+        self.breed = "stub"
+        self.storage = _Storage()
+
+    def is_pc(self):
+        return False
+
+    def __hash__(self):
+        return 1
+
+    def __eq__(self, other):
+        return self is other
+
+    def __repr__(self):
+        return "stub1"
+
+
+_gen_cls = []
+
+
+def _tree_generator(storage, tree):
+    """a trivial PartialGenerator whose output is the tree u"""
+    if not _gen_cls:
+        from annet.generators import PartialGenerator
+
+        class TreeGen(PartialGenerator):
+            def __init__(self, storage, tree):
+                super().__init__(storage)
+                self.tree = tree
+
+            def acl(self, device):
+                return ""
+
+            def run(self, device):
+                yield from self._emit(self.tree)
+
+            def _emit(self, t):
+                for row, ch in t.items():
+                    if ch:
+                        with self.block(row):
+                            yield from self._emit(ch)
+                    else:
+                        yield row
+        _gen_cls.append(TreeGen)
+    return _gen_cls[0](storage, tree)
+
+
+def real_gen_patch(c, t, u, no_new):
+    """device text t, generator output u -> annet.gen._old_new_per_device (implicit on, no ACL) -> api._diff_and_patch"""
+    import logging
+    import types
+    from annet import gen as agen, api
+    logging.disable(logging.CRITICAL)
+    dev = _GenDev(c["hw"], c["tags"])
+    args = types.SimpleNamespace(no_acl=True, acl_safe=False, generators_context=None, profile=False, no_acl_exclusive=False,
+                                 fail_on_empty_config=False, filter_acl="", filter_ifaces=[], filter_peers=[], filter_policies=[],
+                                 required_packages_check=False)
+    ctx = agen.OldNewDeviceContext(
+        config="running", args=args, downloaded_files={}, failed_files={}, running={dev: c["join"](t)}, failed_running={},
+        no_new=no_new, stdin={"filter_acl": "", "config": None}, add_annotations=False, add_implicit=True, do_files_download=False,
+        gens=agen.DeviceGenerators(partial={dev: [_tree_generator(dev.storage, u)]}, ref={dev: []}), fetched_packages={},
+        failed_packages={}, device_count=1, do_print_perf=False)
+    res = agen._old_new_per_device(ctx, dev, None)
+    if res.err is not None:
+        raise res.err
+    diff, patch = api._diff_and_patch(dev, res.old, res.new, res.acl_rules, res.filter_acl_rules, False)
+    return res.old, res.new, diff, [tuple(p) for p in c["fm"].cmd_paths(patch)]
+
+
+def check_gen(hwi, t, u, no_new):
+    """t = what the device text holds, u = what the generators yield (nothing in clear mode, no_new=True)"""
+    c = context(hwi)
+    out = []
+    u_eff = odict() if no_new else u
+    mt = expected_completion(t, c["rules"])
+    mu = expected_completion(u_eff, c["rules"])
+    try:
+        old, new, diff, cmds = real_gen_patch(c, t, u, no_new)
+    except Exception as e:
+        err = "%s: %s" % (type(e).__name__, e)
+        try:
+            _, raw = real_patch(copy_tree(t), copy_tree(u_eff), c)
+        except Exception as e2:
+            return [("bounded:C17:raw-patch-exception", "the patch of t and u WITHOUT defaults raises", "a patch", "%s: %s" % (type(e2).__name__, e2))]
+        return [("bounded:C17:patch-raises-with-defaults", "annet.gen + _diff_and_patch: the patch of (t, u) is fine, with the implicit "
+                 "completion it raises: a default row collides with an explicit row", dict(patch_without_defaults=raw), err)]
+    if plain(old) != plain(mt) or plain(new) != plain(mu):
+        out.append(("bounded:C17:gen:completion-differs", "old/new out of _old_new_per_device are not the device text / the generator output "
+                    "completed with the defaults (no_new=%s)" % no_new, dict(old=plain(mt), new=plain(mu)), dict(old=plain(old), new=plain(new))))
+    cd = common_defaults(t, u_eff, mt, mu)
+
+    def walk(d, path):
+        for item in d:
+            if item[1] in cd.get(path, ()):
+                out.append(("bounded:C17:gen:diff-entry-for-common-default",
+                            "annet.gen (no_new=%s): diff entry %s %r at %r for a default row that is neither in the device text nor "
+                            "generated" % (no_new, item[0], item[1], list(path)), "no entry", _diff_j(diff)))
+            walk(item[2], path + (item[1],))
+    walk(diff, ())
+    for p in cmds:
+        par, cmd = p[:-1], p[-1]
+        for d in cd.get(par, ()):
+            if core(cmd, c["neg"]) == core(d, c["neg"]):
+                tr, ur = set(at(t, par)), set(at(u_eff, par))
+                if not any(core(r, c["neg"]) == core(d, c["neg"]) for r in tr ^ ur):
+                    out.append(("bounded:C17:gen:command-for-common-default",
+                                "annet.gen (no_new=%s): command %r at %r names the default row %r that is neither in the device text nor "
+                                "generated" % (no_new, cmd, list(par), d), "no such command", cmds))
+    return out
+
+
 def _diff_j(d):
     return [[str(i[0]), i[1], _diff_j(i[2])] for i in d]
 
@@ -450,6 +610,18 @@ def cases(tier, seed, part, nparts):
                 i += 1
                 if i % nparts == part:
                     yield dict(kind="pair", hw=hwi, t=t, u=u)
+        # (G) the real annet.gen._old_new_per_device + api._diff_and_patch: device text t (never empty: an empty device config is
+        #     replaced by the vendor's initial config), generator output u, normal mode and clear mode (no_new)
+        gfam = [x for x in trees(rules, neg, 1, 1) if x]
+        step = 10 if tier == "quick" else 3
+        for t in gfam:
+            i += 1
+            if i % nparts == part:
+                yield dict(kind="gen", hw=hwi, t=t, u=odict(), no_new=True)
+            for u in [odict()] + gfam[::step] + [t]:
+                i += 1
+                if i % nparts == part:
+                    yield dict(kind="gen", hw=hwi, t=t, u=u, no_new=False)
         # (R) random bigger trees and edits
         for j in range(250 if tier == "quick" else 5000):
             i += 1
@@ -479,6 +651,8 @@ def check_case(case):
             out.append(("bounded:C17:no-sample-for-pattern", "no word of the pool instantiates block pattern %r" % case["pattern"], ">= 1 sample", []))
         return out
     t = _to_odict(case["t"])
+    if case["kind"] == "gen":
+        return check_gen(hwi, t, _to_odict(case["u"]), case["no_new"])
     if "tree" in case["kind"]:
         res, _ = check_completion(hwi, t)
         out.extend(res)
@@ -523,6 +697,8 @@ def run(tier="quick", seed=0, part=0, nparts=1):
         res = check_case(case)
         if case["kind"] != "samples":
             nt = _has_default_interplay(case["hw"], case["t"])
+            if case["kind"] == "gen":
+                nt = True     # some top-level default is always absent from the text or suppressed by it
             if "pair" in case["kind"]:
                 nt = (nt or _has_default_interplay(case["hw"], case["u"])) and plain(case["t"]) != plain(case["u"])
             if nt:
@@ -541,10 +717,16 @@ def run(tier="quick", seed=0, part=0, nparts=1):
                      "the rules: per default row {the row, its negation, the same command with another value, the row + one more word} (mutually exclusive), per block "
                      "pattern up to 3 matching sample names + 1 look-alike that does not match, `description x` under blocks. (T) completion "
                      "checks on all trees with %s; (P) patch checks on all pairs (t,u) of trees with <= 1 root row and <= %d rows per block%s; "
-                     "(R) seeded random trees (<= 5 root rows) with u = random edit of t, completion + patch checks. non-trivial = some "
+                     "(G) the real annet.gen._old_new_per_device (stub device/context, trivial generator yielding u, implicit on, no ACL) + "
+                     "api._diff_and_patch: every non-empty t with <= 1 root row x <= 1 row per block as device text, in clear mode "
+                     "(no_new) and in normal mode with u in {nothing, every %s tree of the family, t}: old/new == completions, no diff "
+                     "entry / command for a default in neither text; (R) seeded random trees (<= 5 root rows) with u = random edit of "
+                     "t, completion + patch checks. non-trivial = some "
                      "applicable default is suppressed by an explicit row or added under an explicit block (pairs: and t != u); distinct by "
-                     "(hw, t, u)" % (tt, pp, " (quick: each unordered pair once, direction alternating)" if tier == "quick" else ""),
-                bound="%s (completion); all pairs of trees with <= 1 root row x <= %d rows per block (patch); random beyond" % (tt, pp))
+                     "(hw, t, u)" % (tt, pp, " (quick: each unordered pair once, direction alternating)" if tier == "quick" else "",
+                                     "10th" if tier == "quick" else "3rd"),
+                bound="%s (completion); all pairs of trees with <= 1 root row x <= %d rows per block (patch); annet.gen on <= 1 root row x <= 1 "
+                      "row per block, both modes; random beyond" % (tt, pp))
 
 
 def replay(case):
